@@ -4,7 +4,7 @@ R07a hash-order taint (E3); R07b nondeterministic primitives (who-may-call + rea
 """
 import ast
 
-from ..astx import dotted, self_attr, walk_no_nested, parent, call_name, func_params, kwarg
+from ..astx import dotted, self_attr, walk_no_nested, parent, call_name, func_params, kwarg, flatten_conditions, dominating_conditions
 from ..callgraph import CallGraph, diff_entries
 from ..core import norm
 
@@ -582,6 +582,42 @@ def _conditional_within(node, fn):
     return False
 
 
+def r07m(ctx):
+    m = ctx.model
+    ctx.rule("R07m", "error texts are output, too: a loader that refuses an object does not print it with repr()/str() unless its type is "
+                     "known not to be hash-ordered - the YAML loaders hand json.build_tree whatever the document constructs, a `!!set` "
+                     "arrives as a Python set, and the repr of a set of strings lists its members in an order that follows PYTHONHASHSEED")
+    f = m.functions.get("graphtage.json.build_tree")
+    if f is None:
+        ctx.inconclusive("R07m", "graphtage/json.py", "build_tree", None, "refusal text", "graphtage.json.build_tree not found")
+        return
+    obj = func_params(f.node)[0]
+    n = 0
+    for r in walk_no_nested(f.node):
+        if not isinstance(r, ast.Raise) or r.exc is None:
+            continue
+        fmts = [x for x in ast.walk(r.exc) if isinstance(x, ast.FormattedValue) and isinstance(x.value, ast.Name) and x.value.id == obj]
+        fmts += [x for x in ast.walk(r.exc) if isinstance(x, ast.Call) and call_name(x) in ("repr", "str") and x.args
+                 and isinstance(x.args[0], ast.Name) and x.args[0].id == obj]
+        if not fmts:
+            continue
+        n += 1
+        # what is known about the object here: the isinstance tests that failed on the way (elif chain / guard clauses)
+        excluded = set()
+        for t, pol in flatten_conditions(dominating_conditions(r)):
+            if not pol and isinstance(t, ast.Call) and call_name(t) == "isinstance" and len(t.args) == 2 and dotted(t.args[0]) == obj:
+                ts = t.args[1].elts if isinstance(t.args[1], ast.Tuple) else [t.args[1]]
+                excluded |= {dotted(x) for x in ts if dotted(x)}
+        if {"set", "frozenset"} <= excluded:
+            ctx.proved("R07m", f.file, "build_tree", r, "refusal text", "sets have been handled before the refusal")
+        else:
+            ctx.violation("R07m", f.file, "build_tree", fmts[0], "refusal text",
+                          f"`{norm(r, 70)}` prints the refused object; sets are not among the types tested before ({sorted(excluded)}), and YAML "
+                          f"`a: !!set {{alpha, beta, gamma}}` reaches this line: the message (written to stderr by main) lists the members in "
+                          f"hash order, which differs between processes with different PYTHONHASHSEED")
+    ctx.floor("R07m", n, 1, "refusals in json.build_tree that print the refused object")
+
+
 def r07l(ctx):
     m = ctx.model
     ctx.rule("R07l", "an edited copy starts with fresh edit state: the constructor of every Edited* class copies the wrapped node's "
@@ -778,6 +814,7 @@ def r07j(ctx):
 
 def run(ctx):
     r07l(ctx)
+    r07m(ctx)
     from ..memo import e13
     e13(ctx)          # no value is cached under part of its inputs (stale output on reuse)
     m = ctx.model
